@@ -8,6 +8,7 @@ CONSTANTS
   MaxCalls = %(calls)d
   Tops <- %(tops)s
   MaxDepth = 2
+  Starts <- %(starts)s
 %(body)s
 CHECK_DEADLOCK FALSE
 """
@@ -17,13 +18,14 @@ PID_NOTE = "results, persisted effects and closed flags"
 
 
 def gen(ctx, q):
-    files = {"mc.cfg": CFG % dict(calls=3, tops="TopsAll", body=INV),
-             "g2.cfg": CFG % dict(calls=2, tops="TopsLight", body="INVARIANTS Emit"),
-             "g3.cfg": CFG % dict(calls=3, tops="TopsCore", body="INVARIANTS Emit"),
-             "reuse.cfg": CFG % dict(calls=3, tops="Reuse", body="INVARIANTS Emit"),
-             "deepreuse.cfg": CFG % dict(calls=2, tops="DeepReuse", body="INVARIANTS Emit"),
-             "heavy.cfg": CFG % dict(calls=2, tops="Heavy", body="INVARIANTS Emit"),
-             "sim.cfg": CFG % dict(calls=6 if q else 8, tops="TopsAll" if not q else "TopsLight", body="INVARIANTS Emit")}
+    files = {"mc.cfg": CFG % dict(starts="NoStarts", calls=3, tops="TopsAll", body=INV),
+             "g2.cfg": CFG % dict(starts="NoStarts", calls=2, tops="TopsLight", body="INVARIANTS Emit"),
+             "g3.cfg": CFG % dict(starts="NoStarts", calls=3, tops="TopsCore", body="INVARIANTS Emit"),
+             "reuse.cfg": CFG % dict(starts="NoStarts", calls=3, tops="Reuse", body="INVARIANTS Emit"),
+             "deepreuse.cfg": CFG % dict(starts="NoStarts", calls=2, tops="DeepReuse", body="INVARIANTS Emit"),
+             "starts.cfg": (CFG % dict(starts="StartsAll", calls=3, tops="StartTops", body="INVARIANTS Emit NoHalfInstance")),
+             "heavy.cfg": CFG % dict(starts="NoStarts", calls=2, tops="Heavy", body="INVARIANTS Emit"),
+             "sim.cfg": CFG % dict(starts="NoStarts", calls=6 if q else 8, tops="TopsAll" if not q else "TopsLight", body="INVARIANTS Emit")}
     ctx.tlc("CallsMC", "mc.cfg", extra_files=files, tag="design")
     beh = ctx.tlc("CallsMC", "g2.cfg", extra_files=files, design=False, tag="gen:pairs")["emitted"]
     n2 = len(beh)
@@ -34,8 +36,15 @@ def gen(ctx, q):
     heavy = ctx.tlc("CallsMC", "heavy.cfg", extra_files=files, design=False, tag="gen:deep-recursion")["emitted"]
     beh += heavy if not q else rnd.sample(heavy, min(8, len(heavy)))
     # stack overflow, then the SAME function object again (finite this time), then again
-    beh += ctx.tlc("CallsMC", "reuse.cfg", extra_files=files, design=False, tag="gen:overflow-then-reuse")["emitted"]
-    beh += ctx.tlc("CallsMC", "deepreuse.cfg", extra_files=files, design=False, tag="gen:deep-failure-then-deep-recursion")["emitted"]
+    reuse = ctx.tlc("CallsMC", "reuse.cfg", extra_files=files, design=False, tag="gen:overflow-then-reuse")["emitted"]
+    reuse += ctx.tlc("CallsMC", "deepreuse.cfg", extra_files=files, design=False, tag="gen:deep-failure-then-deep-recursion")["emitted"]
+    for b in reuse:
+        b["same"] = True        # these families are about ONE function object per export across the calls
+    beh += reuse
+    # start functions: instantiations of the starter module (start section / exported _start) that succeed, trap, panic, exit
+    st = ctx.tlc("CallsMC", "starts.cfg", extra_files=files, design=True, tag="gen:start-functions")["emitted"]
+    ctx.extra["start_function_histories"] = len(st)
+    beh += st if not q else rnd.sample(st, min(1200, len(st)))
     beh += ctx.tlc("CallsMC", "sim.cfg", extra_files=files, design=False, tag="sim", workers=1,
                    simulate="num=%d" % (300 if q else 8000), depth=12)["emitted"]
     ctx.extra["histories"] = {"pairs_enumerated": n2, "replayed": len(beh)}
